@@ -38,6 +38,9 @@ type group struct {
 	mu sync.Mutex
 	ms []*member
 	mc *groupMeta
+	// true: a (re)starting member accepts raft messages as soon as its partition is registered, i.e. BEFORE its restart
+	// replay has run (as in EngineImpl.Assign: addDBPTInfo comes before readReplayForReplication); false: after it
+	earlyMessages bool
 }
 
 type groupMeta struct {
@@ -106,7 +109,14 @@ func (g *group) start(i int) {
 	}
 	close(replayC)
 	eng := engine.VerifNewRaftEngine("db0", uint32(i), node)
+	// the order of EngineImpl.startRaftNode / Assign: the commit reader is started, then the partition is registered
+	// (raft messages are accepted from then on), then the restart replay runs
 	go engine.VerifReadCommitFromRaft(node, g.mc, m.st)
+	if g.earlyMessages {
+		g.mu.Lock()
+		m.store, m.node, m.eng, m.up = store, node, eng, true
+		g.mu.Unlock()
+	}
 	engine.VerifReadReplayForReplication(replayC, g.mc, m.st, "db0", uint32(i))
 	g.mu.Lock()
 	m.store, m.node, m.eng, m.up = store, node, eng, true
@@ -165,6 +175,7 @@ type GroupCase struct {
 	AckedN    int      `json:"ackedN"`
 	Missing   int      `json:"missing"`     // acknowledged points missing on the rejoined member after catch-up
 	VictimApplied uint64 `json:"victimApplied"`
+	StaleOld  int      `json:"staleOld"`    // replayrace: acknowledged points that show the value of the replayed (older) entry
 	Target    int      `json:"target"`      // lagmaster: the partition that answers reads after the master's store died
 	GroupCommit uint64 `json:"groupCommit"` // lagmaster: applied index of the caught-up live member at that moment
 	Note      []string `json:"note"`
@@ -265,6 +276,10 @@ func waitFor(d time.Duration, f func() bool) bool {
 func runGroupCase(work string, c *GroupCase) {
 	if c.Forced == "lagmaster" {
 		runLagMaster(work, c)
+		return
+	}
+	if c.Forced == "replayrace" {
+		runReplayRace(work, c)
 		return
 	}
 	defer func() {
